@@ -16,6 +16,13 @@ def run(ctx):
         if not r[0]:
             raise vf.Undecided('c18 does not compile: ' + r[1][:3000])
     ctx.pmap(lambda x: ctx.run(x[0][0], [x[1]]), list(zip(res, ('float', 'double', 'longdouble'))))
+    # the evaluation-time axis: static const numbers initialised from literals (compiler-evaluated if the relation is constexpr) vs run time
+    scsrc = vf.read(os.path.join(vf.VERIF, 'harness', 'c18_static_const.cpp')).decode()
+    for opt in ('-O0', '-O2'):
+        sb, serr = ctx.compile('c18_static_const' + opt, scsrc, opt=opt)
+        if not sb:
+            raise vf.Undecided('c18_static_const does not compile: ' + serr[:2500])
+        ctx.run(sb)
     # member functions that are a second spelling of a constructor (ReynoldsNumber::Speed(mu, rho, L), Stress::Traction(n), ...):
     # tied to the constructor form, which the table above checks against the textbook formula
     R, items, tjobs, tres = rel.build(ctx, 6, per_tu=20)
@@ -38,5 +45,5 @@ def run(ctx):
             'arguments, full sweeps of every argument with co-prime strides on the others for 3-4 arguments; all arguments pairwise '
             'different; heat-capacity ratios both ordinary and next to one). Reference in __float128 with the textbook constants; accepted error = 8 ulp of the result (the inputs are exact numbers: '
             'no allowance for their conditioning). Plus every discovered member function that has a constructor twin with the same operand types (%d today), compared with that constructor under the same kind of tolerance. '
-            'distinct_nontrivial = definitions x numeric types checked') % (len(present) + len(absent), len(items))
+            'Nine square-root / power definitions are also evaluated as static const numbers initialised from literals (-O0 and -O2) and compared bitwise with the run-time value. distinct_nontrivial = definitions x numeric types checked') % (len(present) + len(absent), len(items))
     return vf.finish(ctx, 'exploration', rule, h.stat('evaluations') + h.stat('member_twin_evaluations'), max(2, h.stat('definitions_checked') + h.stat('member_twins_checked')), True)
